@@ -17,6 +17,16 @@ CLAIMS = {
         'independence up to rounding are not decided.',
    design='DESIGN.md section 4 C01; rules R-WMEAN, R-DIV, R-SIB, R-YIELD1, R-KEY, R-PURE',
    technique='accumulator-idiom recognition over reaching definitions + CFG must-pass-through + record-field role recovery'),
+ 'C02': dict(
+   text='Static analysis (level "other"): on the three backends of for_each_client.py it decides donation safety (every donated '
+        'value is an owned copy / previous donation result, dead afterwards; caller inputs are never donated), one yield per '
+        'client on every normal path and the fold shape init -> step* -> final, the pmap masking discipline (where(mask,new,old), '
+        'zeroed step results, padding clients skipped, step results truncated, mask/padding pairing in _blockify), the '
+        'thread-local scoped backend selection restored in finally with a who-may-write check, and that every JAX entry point '
+        'used exists in the installed jax. Equality of values across backends is not decided.',
+   design='DESIGN.md section 4 C02; rules R-DONATE, R-YIELD1, R-FOLD, R-MASK M-c, R-SCOPE, R-API',
+   technique='buffer-ownership dataflow + CFG must-pass-through (yield/finally) + structural pairing checks + getattr/signature API check',
+   note='R-API imports the installed third-party packages (jax, numpy, haiku, optax) to inspect attributes/signatures; fedjax itself is never imported.'),
  'C07': dict(
    text='Static analysis (level "other"): ownership/liveness analysis of every donated buffer in tree_util (owned copy before '
         'first donation, dead after donation, public functions donate nothing, private wrappers stay private), recognition of '
